@@ -550,6 +550,17 @@ def parse_dump(text):
             f.locals.setdefault(0, ret)
             fns.append(f)
             continue
+        mc = re.match(r'^(?:const|static(?: mut)?) (.*) = const (.*);$', ln)
+        if mc:
+            full = mc.group(1)
+            idx = _last_top_colon(full)
+            if idx > 0:
+                name, ty = full[:idx], full[idx + 2:]
+                f = Function(name, [], ty, {0: ty}, {}, 'const', {}, i + 1)
+                f.blocks['bb0'] = Block([('assign', Place(0, []), ('use', ('const', mc.group(2).strip())))], ('return',))
+                fns.append(f)
+            i += 1
+            continue
         if (ln.startswith('const ') or ln.startswith('static ')) and ln.endswith('= {'):
             m = re.match(r'^(?:const|static(?: mut)?) (.*?): (.*) = \{$', ln)
             if m:
